@@ -237,3 +237,8 @@ def switched_tol(V):
         # KNOWN FINDING K5 (known_findings.json): merging excursions under a tolerance can report the largest sample of a
         # merged group that is not a zero-tolerance switched peak
         out.prove('subsequence-of-zero-tolerance-switched-peaks', all(a in sp0 for a in sp))
+        # the part of the clause that HOLDS on the unchanged code and is therefore not covered by K5: a tolerance that does not exceed the
+        # peak of any half cycle cannot merge a half cycle away, so the reported indices must be zero-tolerance switched peaks
+        small_tol = T.sand(*[T.sle(V.real('tol'), T.sabs(x[p_])) for p_ in sp0]) if sp0 else True
+        out.replay_info = dict(module='switched_tol')
+        out.prove('subsequence-when-the-tolerance-does-not-exceed-any-half-cycle-peak', T.simplies(small_tol, all(a in sp0 for a in sp)))
